@@ -11,6 +11,7 @@ import (
 	"fmt"
 	"sort"
 	"strings"
+	"sync/atomic"
 
 	"github.com/ava-labs/avalanchego/database"
 	"github.com/ava-labs/avalanchego/database/memdb"
@@ -39,6 +40,53 @@ func (parser) ParseBlock(_ context.Context, b []byte) (*blk, error) {
 	}
 	return &blk{binary.BigEndian.Uint64(b[3:])}, nil
 }
+
+// crashDB numbers every durable write (Put, Delete, Batch.Write) and, while recording, keeps
+// a copy of the database content after each one: every prefix of the durable-write sequence
+// of an operation is a crash point (pebble is opened with synchronous, atomic batch writes).
+type crashDB struct {
+	*memdb.Database
+	recording bool
+	snaps     []*memdb.Database
+}
+
+func (c *crashDB) snap() {
+	if !c.recording {
+		return
+	}
+	cp := memdb.New()
+	it := c.Database.NewIterator()
+	for it.Next() {
+		_ = cp.Put(append([]byte{}, it.Key()...), append([]byte{}, it.Value()...))
+	}
+	it.Release()
+	c.snaps = append(c.snaps, cp)
+}
+
+func (c *crashDB) Put(k, v []byte) error {
+	err := c.Database.Put(k, v)
+	c.snap()
+	return err
+}
+
+func (c *crashDB) Delete(k []byte) error {
+	err := c.Database.Delete(k)
+	c.snap()
+	return err
+}
+
+type crashBatch struct {
+	database.Batch
+	c *crashDB
+}
+
+func (b *crashBatch) Write() error {
+	err := b.Batch.Write()
+	b.c.snap()
+	return err
+}
+
+func (c *crashDB) NewBatch() database.Batch { return &crashBatch{c.Database.NewBatch(), c} }
 
 type opKind int
 
@@ -87,6 +135,8 @@ func open(db database.Database, window uint64) (*chainindex.ChainIndex[*blk], er
 		chainindex.Config{AcceptedBlockWindow: window, BlockCompactionFrequency: 1 << 62}, parser{}, db)
 }
 
+var crashPoints, opsWithWrites, maxWrites atomic.Int64
+
 func exec(h []int) seqx.Result {
 	if len(h) == 0 {
 		en := make([]int, len(windows))
@@ -97,7 +147,7 @@ func exec(h []int) seqx.Result {
 	}
 	ctx := context.Background()
 	window := windows[h[0]]
-	db := memdb.New()
+	db := &crashDB{Database: memdb.New()}
 	viol := func(key, what string) seqx.Result {
 		return seqx.Result{Violation: &seqx.Violation{Key: "C19:" + key, What: what, Data: map[string]any{"history": hist(h)}}}
 	}
@@ -114,6 +164,9 @@ func exec(h []int) seqx.Result {
 	outcome := ""
 	for step, oi := range h[1:] {
 		o := ops[oi-len(windows)]
+		prevLast := last
+		isLastOp := step == len(h)-2
+		db.recording, db.snaps = isLastOp, nil
 		switch o.kind {
 		case oAccept, oGap:
 			nh := last + uint64(o.arg)
@@ -156,6 +209,48 @@ func exec(h []int) seqx.Result {
 			}
 			gapOrHist = false
 			outcome = "restart"
+		}
+		// ---- crash points inside the operation: every proper prefix of its durable writes
+		db.recording = false
+		if isLastOp && len(db.snaps) > 1 {
+			for k, sn := range db.snaps[:len(db.snaps)-1] {
+				rci, err := open(sn, window)
+				if err != nil {
+					return viol("crash:reopen-fails", fmt.Sprintf("step %d %s: crash after durable write %d of %d: reopening failed: %v", step, o.name, k+1, len(db.snaps), err))
+				}
+				got, err := rci.GetLastAcceptedHeight(ctx)
+				if err != nil || (got != prevLast && got != last) {
+					return viol("crash:last-accepted-height", fmt.Sprintf("step %d %s: crash after durable write %d of %d: last accepted height %d,%v (before the operation %d, after it %d)", step, o.name, k+1, len(db.snaps), got, err, prevLast, last))
+				}
+				for _, hh := range []uint64{0, got} {
+					b, err := rci.GetBlockByHeight(ctx, hh)
+					if err != nil || b.h != hh {
+						return viol("crash:last-accepted-block-missing", fmt.Sprintf("step %d %s: crash after durable write %d of %d: last accepted height is %d but GetBlockByHeight(%d) = %v,%v", step, o.name, k+1, len(db.snaps), got, hh, b, err))
+					}
+					if _, err := rci.GetBlock(ctx, b.GetID()); err != nil {
+						return viol("crash:last-accepted-block-missing", fmt.Sprintf("step %d %s: crash after durable write %d of %d: block %d not retrievable by id: %v", step, o.name, k+1, len(db.snaps), hh, err))
+					}
+				}
+				// blocks of the window of the recovered tip that were stored before the operation
+				for hh := range stored {
+					if hh == 0 || hh > got || (window != 0 && hh+window <= got) || (hh == last && got != last) {
+						continue
+					}
+					if b, err := rci.GetBlockByHeight(ctx, hh); err != nil || b.h != hh {
+						return viol("crash:window-block-missing", fmt.Sprintf("step %d %s: crash after durable write %d of %d: recovered tip %d, window %d, block %d = %v,%v", step, o.name, k+1, len(db.snaps), got, window, hh, b, err))
+					}
+				}
+			}
+			crashPoints.Add(int64(len(db.snaps) - 1))
+		}
+		if isLastOp {
+			opsWithWrites.Add(1)
+			for {
+				m := maxWrites.Load()
+				if int64(len(db.snaps)) <= m || maxWrites.CompareAndSwap(m, int64(len(db.snaps))) {
+					break
+				}
+			}
 		}
 		// ---- oracle after every step
 		if got, err := ci.GetLastAcceptedHeight(ctx); err != nil || got != last {
@@ -276,7 +371,9 @@ func main() {
 	r.Cov["distinct_outcomes"] = len(st.Outcomes)
 	r.Cov["frontier_unexpanded_at_bound"] = st.Frontier
 	r.Cov["bounds"] = map[string]any{"depth": depth, "windows": windows, "ops": len(ops), "max_height": 12}
-	r.Cov["explanation"] = "every transition executes the real ChainIndex on memdb (fresh database, history replayed); each operation is a single atomic batch, so crash points coincide with operation boundaries and are covered by the restart operation at every state"
+	r.Cov["crash_points_inside_operations"] = crashPoints.Load()
+	r.Cov["max_durable_writes_per_operation"] = maxWrites.Load()
+	r.Cov["explanation"] = "every transition executes the real ChainIndex on memdb (fresh database, history replayed); a counting database wrapper records every durable write of the last operation; every proper prefix of that write sequence is reopened and checked (tip is the old or the new height, tip block and its window retrievable); operation boundaries are covered by the restart operation at every state"
 	r.Assumptions = []string{"window 0 = retain everything (repo tests and docs)", "retention bound checked for window >= 1 after every restart and at every state of histories without height gaps / historical saves since the last restart (over-retention in between is the documented pruning heuristic)", "healthy database = memdb"}
 	r.Finish()
 }
